@@ -851,12 +851,117 @@ def check_tostring_strings(run, impl_exe, model_exe, rng, strs):
 
 # ---------------------------------------------------------------- part 4: the other targets (test-level decoders)
 
+def gen_scalar(rng, nulls=True):
+    k = rng.random()
+    if k < 0.1 and nulls:
+        return ('n',)
+    if k < 0.25:
+        return ('b', rng.random() < 0.5)
+    if k < 0.6:
+        return ('d', gen_double(rng))
+    return ('s', gen_string(rng, 5))
+
+
+MIXED_PATTERNS = ['os', 'so', 'oso', 'sos', 'oa', 'ao', 'oe', 'eo', 'oE', 'Eo', 'oeo', 'eE', 'Ee', 'ooS', 'Soo', 'oao', 'aoa', 'oos', 'soo',
+                  'oO', 'Oo', 'oOs', 'e', 'ee', 'oo', 'ooo', 'O', 'OO', 'sa', 'as', 'E', 'aE', 'oEe', 'esE']
+
+
+def gen_mixed_array(rng, depth, keygen):
+    """heterogeneous array: o = non-empty object, O = object holding mixed arrays / arrays of tables, e = {}, E = [],
+       s/S = scalar, a = (mixed) array"""
+    items = []
+    for ch in rng.choice(MIXED_PATTERNS):
+        if ch == 'o':
+            items.append(('o', [(keygen(), gen_scalar(rng), False)] + ([(keygen() + 'x', gen_scalar(rng), False)] if rng.random() < 0.3 else [])))
+        elif ch == 'O':
+            items.append(gen_mixed_value(rng, depth - 1, keygen, force='o'))
+        elif ch == 'e':
+            items.append(('o', []))
+        elif ch == 'E':
+            items.append(('a', []))
+        elif ch in 'sS':
+            items.append(gen_scalar(rng))
+        else:
+            items.append(gen_mixed_array(rng, depth - 1, keygen) if depth > 0 else ('a', [gen_scalar(rng)]))
+    return ('a', items)
+
+
+def gen_mixed_value(rng, depth, keygen, force=None):
+    """values whose arrays are heterogeneous in every position (tables inside arrays of tables inside tables ...)"""
+    if depth <= 0:
+        return ('o', [(keygen(), gen_scalar(rng), False)]) if force == 'o' else gen_scalar(rng)
+    r = rng.random()
+    if force == 'o' or r < 0.6:
+        ms, seen = [], set()
+        for _ in range(rng.choice([1, 2, 2, 3, 4])):
+            k = keygen()
+            if k in seen:
+                continue
+            seen.add(k)
+            c = rng.random()
+            if c < 0.45:
+                fv = gen_mixed_array(rng, depth - 1, keygen)
+            elif c < 0.6:      # array of tables whose tables hold mixed arrays
+                fv = ('a', [gen_mixed_value(rng, depth - 1, keygen, force='o') for _ in range(rng.randint(1, 3))])
+            elif c < 0.75:
+                fv = gen_mixed_value(rng, depth - 1, keygen, force='o')
+            else:
+                fv = gen_scalar(rng)
+            ms.append((k, fv, rng.random() < 0.08))
+        return ('o', ms)
+    return gen_mixed_array(rng, depth - 1, keygen)
+
+
+def J(o):
+    return value_from_json(o)
+
+
+def mixed_corpus():
+    """hand-picked heterogeneous shapes (each also run as a TOML table / YAML / Python document)"""
+    shapes = [{'a': [{'b': 1}, 2]}, {'a': [2, {'b': 1}]}, {'a': [{'b': 1}, {}]}, {'a': [{}, {'b': 1}]}, {'a': [{'b': 1}, []]},
+              {'a': [[], {'b': 1}]}, {'a': [{'b': 1}, 'x', {'c': 2}]}, {'a': [{'b': 1}, [{'c': 2}]]}, {'a': [[{'c': 2}], {'b': 1}]},
+              {'a': [{'b': 1}, True]}, {'a': [{}, {}]}, {'a': [{}]}, {'a': [{}, 1]}, {'a': [[], []]}, {'a': [[{}]]},
+              {'t': [{'x': [{'y': 1}, 2]}, {'x': []}]}, {'t': [{'x': [{'y': 1}]}, {'x': [1, {'y': 1}]}]},
+              {'t': {'u': [{'v': [{'w': 1}, 'z']}, {'v': {}}]}}, {'t': [{'u': {'v': [{'w': 1}, []]}}, {'u': 3}]},
+              {'a': [{'b': [{'c': [{'d': 1}, 2]}]}, {'b': [3, {'c': 4}]}]}, {'a': [1, [2, [3, {'k': 4}]], {'k': [5, {}]}]},
+              {'z': 1, 'a': [{'b': 1}, 2], 'm': {'n': [{'o': 1}, 2]}, 'arr': [{'p': 1}, {'q': 2}]},
+              {'a': [{'b': 1}, 2.5, 'q', [], {}, [{'b': 1}], {'c': [1, {'d': 2}]}]},
+              [{'b': 1}, 2], [2, {'b': 1}], [[{'b': 1}, 2], {'c': [{'d': 1}, 3]}], [{}, [], 1], [[], {}, [[]], [{}]]]
+    return [J(x) for x in shapes]
+
+
+def tomlable(ev):
+    """an expected value made fit for std.manifestToml: nulls replaced by false, non-objects wrapped in a table"""
+    def strip(v):
+        if v[0] == 'n':
+            return ('b', False)
+        if v[0] == 'a':
+            return ('a', [strip(x) for x in v[1]])
+        if v[0] == 'o':
+            return ('o', [(k, strip(x)) for k, x in v[1]])
+        return v
+    v = strip(ev)
+    return v if v[0] == 'o' else ('o', [('v', v)])
+
+
+def src_of_expected(ev, rng):
+    if ev[0] == 'a':
+        return ('a', [src_of_expected(x, rng) for x in ev[1]])
+    if ev[0] == 'o':
+        return ('o', [(k, src_of_expected(x, rng), False) for k, x in ev[1]])
+    return ev
+
+
+CRASH_STATES = ('PANIC', 'CRASH', 'TIMEOUT', 'NOOUTPUT')
+
+
 def ident_keygen(rng):
     return lambda: rng.choice(['a', 'b', 'c', 'k1', 'key_2', 'Z', 'x9', 'foo', 'bar', 'v_'])
 
 
 def check_targets(run, impl_exe, rng, values, model_exe=None, numtab=None):
     progs, meta, mlines = [], [], []
+    toml_want = {}
     for i, v in enumerate(values):
         ev = expected(v)
         vsrc = src_of(v, rng)
@@ -870,8 +975,16 @@ def check_targets(run, impl_exe, rng, values, model_exe=None, numtab=None):
             progs.append((cid + 'ya', 'str=1', 'std.manifestYamlDoc(%s, indent_array_in_object=%s, quote_keys=%s)' % (vsrc, str(a).lower(), str(q).lower())))
             progs.append((cid + 'yp', 'ml=0', 'local v = %s; std.parseYaml(std.manifestYamlDoc(v, indent_array_in_object=%s, quote_keys=%s)) == v' % (vsrc, str(a).lower(), str(q).lower())))
             progs.append((cid + 'ys', 'str=1', 'std.manifestYamlStream([%s, %s], indent_array_in_object=%s, c_document_end=%s, quote_keys=%s)' % (vsrc, vsrc, str(a).lower(), str(rng.random() < 0.5).lower(), str(q).lower())))
-        if ev[0] == 'o' and not has_null(ev):
-            progs.append((cid + 'to', 'str=1', 'std.manifestTomlEx(%s, %s)' % (vsrc, rng.choice(['""', '"  "', '"\\t"']))))
+        tv = tomlable(ev)
+        tsrc = vsrc if tv == ev else src_of(src_of_expected(tv, rng), rng)
+        if rng.random() < 0.3:
+            progs.append((cid + 'to', 'str=1', 'std.manifestToml(%s)' % tsrc))
+        else:
+            progs.append((cid + 'to', 'str=1', 'std.manifestTomlEx(%s, %s)' % (tsrc, rng.choice(['""', '"  "', '"\\t"']))))
+        toml_want[cid] = to_py(tv)
+        # INI / XML: no decoder model; the implementation must answer (a document or a diagnosed error), never crash
+        progs.append((cid + 'in', 'str=1', 'std.manifestIni({main: %s, sections: {s: %s, t: {k: %s}}})' % (tsrc, tsrc, vsrc)))
+        progs.append((cid + 'xm', 'str=1', 'std.manifestXmlJsonml(["t", {a: "1"}, "x", ["u", %s], %s])' % (vsrc, vsrc)))
         if ev[0] == 'o' and all(re.match(r'[A-Za-z_][A-Za-z0-9_]*\Z', m[0]) and not keyword.iskeyword(m[0]) for m in ev[1]):
             progs.append((cid + 'pv', 'str=1', 'std.manifestPythonVars(%s)' % vsrc))
         meta.append((cid, v, ev, vsrc))
@@ -880,7 +993,7 @@ def check_targets(run, impl_exe, rng, values, model_exe=None, numtab=None):
     srcs = {p[0]: p[2] for p in progs}
     for cid, v, ev, vsrc in meta:
         want = to_py(ev)
-        for suffix in ('py', 'ya', 'yp', 'ys', 'to', 'pv'):
+        for suffix in ('py', 'ya', 'yp', 'ys', 'to', 'pv', 'in', 'xm'):
             k = cid + suffix
             if k not in srcs:
                 continue
@@ -888,9 +1001,20 @@ def check_targets(run, impl_exe, rng, values, model_exe=None, numtab=None):
             run.count('target_' + suffix)
             replay = {'kind': 'prog', 'opts': 'ml=0' if suffix == 'yp' else 'str=1', 'source': srcs[k], 'target': suffix}
             st, text = ok_text(impl.get(k))
+            if text is None and st.split(' ')[0] in CRASH_STATES:
+                # a panic / abort / hang of the implementation while manifesting: concrete for every target
+                run.violation('target-crash:' + suffix, '%s: the implementation answers %s instead of a document or a diagnosed error' % (srcs[k][:120], st), replay)
+                continue
+            if suffix in ('in', 'xm'):
+                run.count('target_%s_%s' % (suffix, 'doc' if text is not None else 'diagnosed'))
+                continue
             if text is None:
                 run.violation('target-eval-failed:' + suffix, '%s failed: %s' % (srcs[k][:80], st), replay)
                 continue
+            if suffix == 'to':
+                want = toml_want[cid]
+            else:
+                want = to_py(ev)
             if suffix in ('py', 'pv') and model_exe is not None:
                 mf = model.get(cid, 'NOOUTPUT').split('\t')
                 if len(mf) != 2 or not mf[0].startswith('P'):
@@ -1124,8 +1248,13 @@ def check(run):
             fmts = [gen_format(rng) for _ in range(2)]
         for f in fmts:
             cases.append((v, f))
-    target_vals = [gen_value(rng, rng.choice([1, 2, 3, 4]), ident_keygen(rng) if rng.random() < 0.5 else (lambda: gen_key(rng))) for _ in range(250 if quick else 5000)]
+    target_vals = [gen_value(rng, rng.choice([1, 2, 3, 4]), ident_keygen(rng) if rng.random() < 0.5 else (lambda: gen_key(rng))) for _ in range(150 if quick else 4000)]
     target_vals += [v for v in vals[:ncorpus]]
+    target_vals += mixed_corpus()
+    for _ in range(200 if quick else 4000):
+        kg = ident_keygen(rng) if rng.random() < 0.6 else (lambda: gen_key(rng))
+        target_vals.append(gen_mixed_value(rng, rng.choice([1, 2, 3, 4]), kg, force=rng.choice(['o', 'o', None])))
+    run.count('target_mixed_values', len(mixed_corpus()) + (200 if quick else 4000))
     cli_vals = vals[:ncorpus] + [gen_value(rng, rng.choice([1, 2, 3, 5]), ident_keygen(rng) if rng.random() < 0.6 else None) for _ in range(40 if quick else 1200)]
     cli_vals += [('a', [gen_value(rng, 2) for _ in range(rng.randint(0, 4))]) for _ in range(12 if quick else 300)]
     dbl = set()
